@@ -20,10 +20,11 @@ FAMILIES = [
     # engine, family, quick n, thorough n
     ('streamsim', 'c11', 60, 400), ('streamsim', 'c12', 60, 400), ('streamsim', 'c12-trunc', 6, 30),
     ('streamsim', 'c12-tail', 30, 150), ('streamsim', 'c17', 40, 300), ('streamsim', 'c17-stream', 40, 300),
-    ('streamsim', 'c17-multi', 40, 300), ('streamsim', 'c12-enum', 3, 20),
+    ('streamsim', 'c17-multi', 40, 300), ('streamsim', 'c12-enum', 3, 20), ('streamsim', 'c12-eof', 40, 300),
     ('histsim', 'c13', 30, 220), ('histsim', 'c13-io', 30, 220), ('histsim', 'c08', 30, 220),
+    ('histsim', 'c08-each', 30, 220),
     ('defsim', 'c20', 30, 220), ('defsim', 'c20-redef', 30, 220), ('defsim', 'c20-ncep', 30, 220),
-    ('defsim', 'c08-def', 30, 220),
+    ('defsim', 'c20-fixed', 30, 220), ('defsim', 'c08-def', 30, 220),
 ]
 
 
@@ -48,7 +49,10 @@ def compute(tier, njobs, seed):
             pool = pools[eng_name]
         else:
             pool = []
-        plans = [eng.gen_plan(fam, core.derive_seed(seed, eng_name, fam, i), pool, tier) for i in range(n)]
+        if fam.endswith('-each'):
+            plans = [eng.gen_plan(fam, core.derive_seed(seed, eng_name, fam, i), pool, tier, index=i) for i in range(n)]
+        else:
+            plans = [eng.gen_plan(fam, core.derive_seed(seed, eng_name, fam, i), pool, tier) for i in range(n)]
         res = core.pmap(eng_name, plans, limit=180, njobs=njobs)
         for i, (p, (st, tr)) in enumerate(zip(plans, res)):
             if st != 'ok':
